@@ -41,6 +41,9 @@ pub struct BatchOut {
     pub violation: Option<J>,
     pub samples: Vec<J>,
     pub wall_s: f64,
+    pub xprobes: std::collections::BTreeMap<String, u64>,
+    pub stratified_total: u64,
+    pub stratified_done: u64,
 }
 
 pub fn run_seed(base: u64, i: u64, prop: u8, sut: &str) -> u64 {
@@ -317,7 +320,10 @@ pub fn run_batch<T: Sut>(bc: &BatchCfg) -> BatchOut {
 
 impl BatchOut {
     pub fn to_json(&self) -> J {
-        let probes: serde_json::Map<String, J> = PROBE_NAMES.iter().zip(self.probes.iter()).filter(|(_, v)| **v > 0).map(|(k, v)| (k.to_string(), json!(v))).collect();
+        let mut probes: serde_json::Map<String, J> = PROBE_NAMES.iter().zip(self.probes.iter()).filter(|(_, v)| **v > 0).map(|(k, v)| (k.to_string(), json!(v))).collect();
+        for (k, v) in &self.xprobes {
+            probes.insert(k.clone(), json!(v));
+        }
         let kinds: serde_json::Map<String, J> = KIND_NAMES.iter().zip(self.kinds.iter()).filter(|(_, v)| **v > 0).map(|(k, v)| (k.to_string(), json!(v))).collect();
         json!({
             "sut": self.sut, "runs": self.runs, "steps": self.steps, "state_steps": self.state_steps,
@@ -325,6 +331,7 @@ impl BatchOut {
             "probes": probes, "op_kinds": kinds, "distinct": self.distinct, "distinct_nontrivial": self.distinct_nontrivial,
             "trigrams": self.trigrams, "batch_digest": format!("{:016x}", self.batch_digest),
             "violation": self.violation, "samples": self.samples, "wall_s": self.wall_s,
+            "stratified_total": self.stratified_total, "stratified_done": self.stratified_done,
         })
     }
 }
